@@ -56,9 +56,27 @@ func digests(r *prng, sc *scheme, ci int, thorough bool) [][]byte {
 		ds = append(ds, r.bytes(64), r.bytes(20))
 	}
 	if thorough {
-		ds = append(ds, ff, z(2, 30), r.bytes(33), r.bytes(31))
+		ds = append(ds, z(2, 30), r.bytes(33), r.bytes(31))
+		if ci == 0 {
+			// hashToInt(ff..ff) >= the group order: tss-lib refuses to start ("hashed message is not valid"); the adapter's
+			// Sign then waits for its context (observation for C11); recognised by the caller through refuses()
+			ds = append(ds, ff)
+		}
 	}
 	return ds
+}
+
+// refuses: digests for which no signature may come back at all
+func refuses(sc *scheme, d []byte) bool {
+	if sc.name != "ecdsa" || len(d) < 32 {
+		return false
+	}
+	for _, b := range d[:32] {
+		if b != 0xff {
+			return false
+		}
+	}
+	return true
 }
 
 func pickSigners(r *prng, ids []uint16, t int, all bool) []uint16 {
@@ -81,13 +99,14 @@ func capture(sc *scheme, mode string, r *prng, nmal int, extra string) bool {
 	emit(jTables{Kind: "tables", Scheme: sc.name, Rounds: rounds, Broadcast: bc, InCap: sc.newParty(1).VerifInCap()})
 	rec := newRecorder()
 	ok := true
-	kgTimeout, signTimeout := 40*time.Second, 60*time.Second
+	// honest runs take 0.05-0.15 s (EdDSA), 0.2-0.6 s (ECDSA signing), 2-4 s (ECDSA key generation with stored primes)
+	kgTimeout, signTimeout := 20*time.Second, 20*time.Second
 	if sc.name == "ecdsa" {
-		kgTimeout = 120 * time.Second
+		kgTimeout = 60 * time.Second
 		if mode == "live" {
 			kgTimeout = 25 * time.Minute
 		}
-		signTimeout = 120 * time.Second
+		signTimeout = 40 * time.Second
 	}
 	configs := []cfg{{3, 1}, {4, 2}}
 	if strings.Contains(extra, "one") {
@@ -107,14 +126,22 @@ func capture(sc *scheme, mode string, r *prng, nmal int, extra string) bool {
 		emit(kr)
 		if !kr.Ok {
 			ok = false
-			continue
+			break // a run that does not finish is reported as such; the remaining runs would only wait for their timeouts
 		}
 		for di, d := range digests(r, sc, ci, thorough) {
+			if !ok {
+				break
+			}
 			run++
 			signers := pickSigners(r, ids, c.t, di%2 == 0)
-			sr := signLive(sc, rec, run, ids, signers, c.t, shares, d, signTimeout)
+			to, expect := signTimeout, "sign"
+			if refuses(sc, d) {
+				to, expect = 6*time.Second, "refuse"
+			}
+			sr := signLive(sc, rec, run, ids, signers, c.t, shares, d, to)
+			sr.Expect = expect
 			emit(sr)
-			if !sr.Ok {
+			if !sr.Ok && expect == "sign" {
 				ok = false
 			}
 		}
